@@ -50,4 +50,9 @@ def run(prop, tier, vseed):
         extra_f, nc = names_c07.run(3 if tier == "quick" else 4)
         extra_c = {"names": {k: v for k, v in nc.items() if k != "samples"}, "evaluations": nc["evaluations"],
                    "distinct_nontrivial": nc["distinct_nontrivial"], "samples": nc["samples"]}
+    if prop == "C02":
+        from . import nested_c02
+
+        extra_f, nn = nested_c02.run()
+        extra_c = {"nested_table_experiments": nn, "evaluations": nn, "distinct_nontrivial": 0, "samples": [{"nested": "inner table in a cell of a repeated row", "path": "outer.get_elements('descendant::table:table')"}]}
     return run_plan(prop, tier, vseed, plan, RULES[prop], ASSUME, t0=t0, extra_failures=extra_f, extra_cov=extra_c)
